@@ -5,7 +5,7 @@
 //!                three rearrangements of `hx_projgen::arrange`.  P and T(P) are each compiled by the
 //!                REAL compiler (in-process; `HX_MERGE_FRESH=1`: each in a fresh child process `one`).
 //!                Answer: `st=<P>/<T(P)>` and per entrypoint of P
-//!                `ep=<Type.field> P=<canonical map> T=<canonical map> ord=<same|diff:class> ops=<same|diff>`.
+//!                `ep=<Type.field> P=<map> T=<map> ops=<same|diff>` (maps in their own iteration order).
 //!   `validate` — C16.  Request `validate \t <tag> \t <wire>` where tag is `valid`, `fault:<kind>`,
 //!                `defect:<name>`; compiled in-process; answer `ok` | `diag <kinds…>` | `panic`.
 //! Sub-command `one`: reads one wire project on stdin, compiles it with the event sink of the
@@ -231,12 +231,10 @@ fn run_arrange(f: &[&str]) -> String {
             out.push("P=unparsed".to_string());
             continue;
         };
-        let ca = dump::map_text(ma, true);
-        out.push(format!("P={ca}"));
+        out.push(format!("P={}", dump::map_text(ma, false)));
         match b.eps.get(name) {
             None => {
                 out.push("T=missing".to_string());
-                out.push("ord=same".to_string());
                 out.push("ops=diff".to_string());
             }
             Some(eb) => {
@@ -244,14 +242,7 @@ fn run_arrange(f: &[&str]) -> String {
                     out.push("T=unparsed".to_string());
                     continue;
                 };
-                let cb = dump::map_text(mb, true);
-                out.push(format!("T={cb}"));
-                let ord = if ca != cb || dump::map_text(ma, false) == dump::map_text(mb, false) {
-                    "same".to_string()
-                } else {
-                    format!("diff:{}", dump::order_difference_class(ma, mb))
-                };
-                out.push(format!("ord={ord}"));
+                out.push(format!("T={}", dump::map_text(mb, false)));
                 out.push(format!("ops={}", if ea.q == eb.q && ea.n == eb.n { "same" } else { "diff" }));
             }
         }
